@@ -159,17 +159,28 @@ ck.declare('K11_released_tx_leaves_graph', 'release_by_handle_with_wait_cleanup 
 ck.declare('K6_holder_reports_truth', 'lock_holder', 'Some(t) => the key has an unexpired entry of transaction t; None => no unexpired entry')
 granted = conflicts = 0
 for nl, tv in shapes():
-    # ---------------- try_lock
-    for nk in range(NK + 1):
+    # ---------------- try_lock and try_lock_with_wait_tracking (graph calls recorded)
+    for entry, nk in itertools.product(('try_lock', 'try_lock_with_wait_tracking'), range(NK + 1)):
         st = ex.new_state()
         tb = Table(st, nl, tv)
         tx = Int(z3.BitVec('req_tx', 64), False)
         rk = [Str(z3.BitVec(f'rk{i}', 64)) for i in range(nk)]
-        res = run(st, 'LockManager::try_lock', [ref(st.roots['lm']), tx, ref(Seq('std::string::String', list(rk)))])
-        ck.note_path_problem(res, f'try_lock locks={nl} tx_locks={tv} keys={nk}')
+        tracked = entry.endswith('tracking')
+        if tracked:
+            args = [ref(st.roots['lm']), tx, ref(Seq('std::string::String', list(rk))), ref(Struct('WaitForGraph', {}, lazy='WG')), none('Option<u32>')]
+            ex.extra_models['WaitForGraph::remove_transaction'] = lambda c: (c.st.notes.append(('graph_remove', c.args[1].v)), UNIT)[1]
+            ex.extra_models['WaitForGraph::add_wait'] = lambda c: (c.st.notes.append(('graph_wait', c.args[1].v, c.args[2].v)), UNIT)[1]
+        else:
+            args = [ref(st.roots['lm']), tx, ref(Seq('std::string::String', list(rk)))]
+        try:
+            res = run(st, 'LockManager::' + entry, args)
+        finally:
+            ex.extra_models.pop('WaitForGraph::remove_transaction', None)
+            ex.extra_models.pop('WaitForGraph::add_wait', None)
+        ck.note_path_problem(res, f'{entry} locks={nl} tx_locks={tv} keys={nk}')
         for r in res:
-            wit = lambda m, tb=tb, rk=rk: {'op': 'try_lock', 'tx': mval(m, tx.v), 'keys': [mval(m, k.id) for k in rk], 'table': tb.dump(m),
-                                           'clock': [mval(m, c) for c in r.st.env.get('clock_readings', [])]}
+            wit = lambda m, tb=tb, rk=rk, entry=entry: {'op': entry, 'tx': mval(m, tx.v), 'keys': [mval(m, k.id) for k in rk], 'table': tb.dump(m),
+                                                         'clock': [mval(m, c) for c in r.st.env.get('clock_readings', [])]}
             if r.status == 'panic':
                 ck.require(ex, 'K2_grant_all_or_nothing', r.pc, None, z3.BoolVal(False), wit, lambda m, w: 'try-lock-panic')
                 continue
@@ -179,12 +190,25 @@ for nl, tv in shapes():
             unchanged = z3.And([z3.BoolVal(len(L) == nl and len(Tm) == len(tv))] +
                                [z3.And(a[0] == k.id, a[1] == t, a[2] == h) for a, k, t, h in zip(L, tb.keys, tb.tx, tb.h)] +
                                [z3.And([z3.BoolVal(len(ks) == len(v))] + [x == s.id for x, s in zip(ks, v)]) for (tt, ks), v in zip(Tm, tb.tvec)])
+            waits = [(x[1], x[2]) for x in r.st.notes if x[0] == 'graph_wait']
+            forgets = [x[1] for x in r.st.notes if x[0] == 'graph_remove']
             if r.retval.variant == 'Err':
                 conflicts += 1
-                holder = r.retval.fields[('Err', 0)].v
-                just = z3.Or([z3.And(tb.keys[i].id == k.id, tb.tx[i] == holder, tb.tx[i] != tx.v, unexpired_at_some(r.st, tb.acq[i], tb.tmo[i]))
-                              for i in range(nl) for k in rk]) if nl and nk else z3.BoolVal(False)
-                ck.require(ex, 'K1_conflict_refused_nothing_acquired', r.pc, None, z3.And(just, unchanged), wit, lambda m, w: 'conflict')
+                e0 = r.retval.fields[('Err', 0)]
+                holder = e0.v if isinstance(e0, Int) else e0.load(P.field('WaitInfo', 'blocking_tx_id'), 'u64', r.st).v
+                live_foreign = lambda i: z3.And(tb.tx[i] != tx.v, unexpired_at_some(r.st, tb.acq[i], tb.tmo[i]), z3.Or([tb.keys[i].id == k.id for k in rk]) if rk else z3.BoolVal(False))
+                just = z3.Or([z3.And(live_foreign(i), tb.tx[i] == holder) for i in range(nl)]) if nl and nk else z3.BoolVal(False)
+                cs = [just, unchanged]
+                if tracked:
+                    # every recorded wait is (requester -> a live foreign holder of a requested key) and the reported blocker is among them
+                    cs.append(z3.BoolVal(len(waits) >= 1 and not forgets))
+                    for (w_, h_) in waits:
+                        cs.append(z3.And(w_ == tx.v, z3.Or([z3.And(live_foreign(i), tb.tx[i] == h_) for i in range(nl)] + [z3.BoolVal(False)])))
+                    cs.append(z3.Or([h_ == holder for (_, h_) in waits] + [z3.BoolVal(False)]))
+                    # ... and no live foreign holder of a requested key is left out
+                    for i in range(nl):
+                        cs.append(z3.Implies(z3.And(live_foreign(i), z3.Not(expired_at_some(r.st, tb.acq[i], tb.tmo[i]))), z3.Or([h_ == tb.tx[i] for (_, h_) in waits] + [z3.BoolVal(False)])))
+                ck.require(ex, 'K1_conflict_refused_nothing_acquired', r.pc, None, z3.And(cs), wit, lambda m, w: 'conflict')
             else:
                 granted += 1
                 handle = r.retval.fields[('Ok', 0)].v
@@ -197,6 +221,10 @@ for nl, tv in shapes():
                     pres, t, h = lookup(L, tb.keys[i].id)
                     cs.append(z3.Implies(z3.Not(requested), z3.And(pres, t == tb.tx[i], h == tb.h[i])))
                     cs.append(z3.Implies(z3.And(requested, tb.tx[i] != tx.v), expired_at_some(r.st, tb.acq[i], tb.tmo[i])))
+                if tracked:
+                    # the requester stops waiting (it is removed from the graph), nobody else is touched
+                    cs.append(z3.BoolVal(not waits))
+                    cs.append(z3.And([g == tx.v for g in forgets] + [z3.BoolVal(len(forgets) == 1)]))
                 ck.require(ex, 'K2_grant_all_or_nothing', r.pc, None, z3.And(cs) if cs else z3.BoolVal(True), wit, lambda m, w: 'grant')
             ck.require(ex, 'K4_invariant_preserved', r.pc, None, invariant(L, Tm), wit, lambda m, w: 'invariant-try-lock')
     # ---------------- release(tx)
@@ -281,6 +309,32 @@ if granted == 0 or conflicts == 0:
     ck.inconclusive.append(f'vacuous: try_lock granted on {granted} paths, refused on {conflicts}')
 ck.notes.append(f'try_lock: granted on {granted} paths, refused on {conflicts} paths')
 
+# ---------------- serialize / restore
+ck.declare('K12_serialize_restore_identity', 'from_serializable(to_serializable(lm)) over every table shape', 'both tables come back entry for entry (key, owner, handle, acquisition time, timeout; transaction -> key list) and the default timeout is kept')
+for nl, tv in shapes():
+    st = ex.new_state()
+    tb = Table(st, nl, tv)
+    dflt = st.roots['lm'].load(F('LockManager', 'default_timeout'), 'std::time::Duration', st)
+    rs = run(st, 'LockManager::to_serializable', [ref(st.roots['lm'])])
+    ck.note_path_problem(rs, f'to_serializable locks={nl} tx_locks={tv}')
+    for r in rs:
+        if r.status != 'return':
+            continue
+        rs2 = run(r.st, 'LockManager::from_serializable', [r.retval])
+        ck.note_path_problem(rs2, f'from_serializable locks={nl} tx_locks={tv}')
+        for r2 in rs2:
+            wit = lambda m, tb=tb: {'op': 'serialize_restore', 'table': tb.dump(m)}
+            if r2.status != 'return':
+                continue
+            r2.st.roots['lm'] = r2.retval
+            L, Tm = post_tables(r2.st)
+            cs = [z3.BoolVal(len(L) == nl and len(Tm) == len(tv))]
+            for i in range(nl):
+                cs.append(z3.Or([z3.And(k == tb.keys[i].id, t == tb.tx[i], h == tb.h[i], a == tb.acq[i], o == tb.tmo[i]) for (k, t, h, a, o) in L] + [z3.BoolVal(False)]))
+            for j in range(len(tv)):
+                cs.append(z3.Or([z3.And(tt == tb.ttx[j], z3.BoolVal(len(ks) == len(tb.tvec[j])), *[x == s_.id for x, s_ in zip(ks, tb.tvec[j])]) for tt, ks in Tm] + [z3.BoolVal(False)]))
+            ck.require(ex, 'K12_serialize_restore_identity', r2.pc, None, z3.And(cs), wit, lambda m, w: 'serialize-restore')
+
 # the reverse index may list keys a transaction no longer owns (taken over after expiry): shapes with two listed keys
 K11_SHAPES = list(shapes()) + [s_ for s_ in [(1, [2]), (2, [2]), (2, [2, 1])] if s_ not in [(a_, b_) for a_, b_ in shapes()]]
 for nl, tv in K11_SHAPES:
@@ -357,7 +411,7 @@ def _concrete_violation(w, rep):
     elif op == 'cleanup_expired':
         exp = {kn(l['key']) for l in w['table']['locks'] if l.get('expired')}
         bad = bad or set(after) != set(before) - exp
-    elif op == 'try_lock':
+    elif op in ('try_lock', 'try_lock_with_wait_tracking'):
         keys = [kn(k) for k in w['keys']]
         live_other = {kn(l['key']): l['tx'] for l in w['table']['locks'] if not l.get('expired') and l['tx'] != w['tx']}
         res = rep['result']
@@ -366,9 +420,17 @@ def _concrete_violation(w, rep):
             bad = bad or any(k not in after or after[k] != l for k, l in before.items() if k not in keys)
         else:
             bad = bad or not any(live_other.get(k) == res.get('err') for k in keys) or rep['after'] != rep['before']
+        if op.endswith('tracking'):
+            outside = (1 << 64) - 2
+            if 'ok' in res:
+                bad = bad or res.get('waits') != []
+            else:
+                bad = bad or sorted(set(res.get('waits', [])) - {outside}) != sorted({live_other[k] for k in keys if k in live_other})
     elif op == 'lock_holder':
         live = {kn(l['key']): l['tx'] for l in w['table']['locks'] if not l.get('expired')}
         bad = bad or rep['result'].get('holder') != live.get(kn(w['key']))
+    elif op == 'serialize_restore':
+        bad = bad or rep['after'] != rep['before']
     elif op in ('release_by_handle_with_wait_cleanup', 'cleanup_expired_with_wait_cleanup'):
         if op.startswith('release'):
             lost = {l['tx'] for l in before.values() if l['handle'] == w['handle']}
